@@ -115,7 +115,7 @@ def _run(ctx, chk, prog, tag):
             detail = "hidden mutable state: written by %s; chain: %s" % (
                 libw[:4], " -> ".join("%s@%s" % (fn, ins.loc()) for fn, ins, _ in wit))
         chk.ob("C17.inventory", "global %s" % name, ok, g["unit"], key="global:" + name, detail=detail)
-    chk.floor("C17.inventory", "globals", ninv, 7 if tag else 10)
+    chk.floor("C17.inventory", "globals", ninv, 4 if tag else 6)   # (the three allocator pointers and the callback table at least)
 
     nfun = 0
     for f in prog.lib_funcs():
